@@ -23,7 +23,11 @@ import (
 type ConfirmOpts struct {
 	NeedIdle bool                          // the violation is about an idle state: the exact schedule must end with empty queues
 	Check    func(w *World) (bool, string) // evaluated on the real world at the end of the real run
-	MaxNodes int
+	// ThenStep: the violation shows in a transition: after reaching the candidate's content this token must be
+	// available under the exact discipline; the real run executes it and CheckStep judges what it did.
+	ThenStep  *Trans
+	CheckStep func(w *World, before *StoreView, res *StepResult) (bool, string)
+	MaxNodes  int
 }
 
 // Confirmation is the outcome.
@@ -316,8 +320,37 @@ func (x *Explorer) ConfirmExact(target *E1State, opts ConfirmOpts) *Confirmation
 			break
 		}
 		if n.store == target.content && (!opts.NeedIdle || qlen(n.queues) == 0) {
-			goal = n
-			break
+			if opts.ThenStep == nil {
+				goal = n
+				break
+			}
+			// the token of the violating transition must be reachable behind tokens that do nothing here
+			want := opts.ThenStep.Ctrl + "|" + opts.ThenStep.ID
+			for src, items := range n.queues {
+				for pos, it := range items {
+					if it != want {
+						continue
+					}
+					ok := true
+					if strings.HasPrefix(src, "w:") {
+						for i := 0; i < pos; i++ {
+							p := strings.SplitN(items[i], "|", 2)
+							if r := xs.act(n.store, n.env, Trans{Kind: "step", Ctrl: p[0], ID: p[1]}); r.effects > 0 {
+								ok = false
+							}
+						}
+					}
+					if ok && goal == nil {
+						last := *opts.ThenStep
+						last.Src = src
+						goal = &pnode{store: n.store, queues: n.queues, env: n.env, parent: n, via: last, depth: n.depth + 1}
+					}
+					break
+				}
+			}
+			if goal != nil {
+				break
+			}
 		}
 		add := func(tr Trans, r xResult, env Env) {
 			d, inCone := xs.dist[r.succ]
@@ -329,17 +362,6 @@ func (x *Explorer) ConfirmExact(target *E1State, opts ConfirmOpts) *Confirmation
 				q = enqueue(QExact, map[string][]string{}, r.tokens)
 			} else if tr.Kind == "step" {
 				dq := dequeue(n.queues, tr)
-				if r.effects == 0 {
-					// a token without effect: consuming the copies right behind it in the same queue, in the same
-					// content, does the same again – take the whole run at once
-					for {
-						rest := dq[tr.Src]
-						if len(rest) == 0 || rest[0] != tr.Ctrl+"|"+tr.ID {
-							break
-						}
-						dq = dequeue(dq, tr)
-					}
-				}
 				q = enqueue(QExact, dq, r.tokens)
 			} else {
 				q = enqueue(QExact, n.queues, r.tokens)
@@ -510,14 +532,31 @@ func (x *Explorer) ConfirmExact(target *E1State, opts ConfirmOpts) *Confirmation
 		return c
 	}
 	var sched []Trans
+	var symQ []string
 	for m := goal; m.parent != nil; m = m.parent {
 		sched = append(sched, m.via)
+		symQ = append(symQ, queuesCanon(m.queues))
 	}
 	for i, j := 0, len(sched)-1; i < j; i, j = i+1, j-1 {
 		sched[i], sched[j] = sched[j], sched[i]
+		symQ[i], symQ[j] = symQ[j], symQ[i]
 	}
+	debugQ := os.Getenv("VERIF_DEBUG") != ""
 	// the deciding run: execute the schedule for real under the exact discipline
-	full, queues, reason := x.RunExact(sched, opts.NeedIdle)
+	var before *StoreView
+	var lastRes *StepResult
+	full, queues, reason := x.runExact(sched, opts.NeedIdle, func(i int, t Trans) {
+		if opts.ThenStep != nil && i == len(sched)-1 {
+			before = x.W.View()
+		}
+	}, func(i int, t Trans, res *StepResult) {
+		if i == len(sched)-1 {
+			lastRes = res
+		}
+		if debugQ {
+			fmt.Printf("E1X-DEBUG move %d %s (src %s) effects=%v\n    sym after: %s\n", i, t.String(), t.Src, res.Writes, symQ[i])
+		}
+	})
 	if reason != "" {
 		c.Reason = "real run: " + reason
 		if os.Getenv("VERIF_DEBUG") != "" {
@@ -537,6 +576,18 @@ func (x *Explorer) ConfirmExact(target *E1State, opts ConfirmOpts) *Confirmation
 		}
 		c.Detail = detail
 	}
+	if opts.ThenStep != nil && opts.CheckStep != nil {
+		if lastRes == nil {
+			c.Reason = "real run: the violating transition did not run"
+			return c
+		}
+		ok, detail := opts.CheckStep(x.W, before, lastRes)
+		if !ok {
+			c.Reason = "real run: the transition does not show the violation: " + detail
+			return c
+		}
+		c.Detail = detail
+	}
 	c.Confirmed = true
 	c.Schedule = full
 	return c
@@ -548,6 +599,10 @@ func (x *Explorer) ConfirmExact(target *E1State, opts ConfirmOpts) *Confirmation
 // as dead). With drain, all tokens left at the end are executed and must have no effect either. It returns the
 // complete schedule that was run, the final queues and a non-empty reason if the run left the exact discipline.
 func (x *Explorer) RunExact(sched []Trans, drain bool) ([]Trans, map[string][]string, string) {
+	return x.runExact(sched, drain, nil, nil)
+}
+
+func (x *Explorer) runExact(sched []Trans, drain bool, beforeMove func(i int, t Trans), afterMove func(i int, t Trans, res *StepResult)) ([]Trans, map[string][]string, string) {
 	w := x.W
 	w.Restore(x.init.snap)
 	queues := map[string][]string{}
@@ -609,8 +664,8 @@ func (x *Explorer) RunExact(sched []Trans, drain bool) ([]Trans, map[string][]st
 			}
 		}
 	}
+	_ = consumeSurplus
 	for n, t := range sched {
-		consumeSurplus(sched[n:])
 		switch t.Kind {
 		case "step", "crash":
 			q := queues[t.Src]
@@ -637,13 +692,22 @@ func (x *Explorer) RunExact(sched []Trans, drain bool) ([]Trans, map[string][]st
 				}
 			}
 			full = append(full, t)
+			if beforeMove != nil {
+				beforeMove(n, t)
+			}
 			if t.Kind == "crash" {
 				w.fuse.Arm(t.K)
-				_ = w.Step(t.Ctrl, t.ID)
+				cres := w.Step(t.Ctrl, t.ID)
 				queues = enqueue(QExact, map[string][]string{}, w.Restart())
+				if afterMove != nil {
+					afterMove(n, t, &cres)
+				}
 			} else {
 				res := w.Step(t.Ctrl, t.ID)
 				queues = enqueue(QExact, dequeue(queues, t), res.Tokens)
+				if afterMove != nil {
+					afterMove(n, t, &res)
+				}
 			}
 		case "restart":
 			full = append(full, t)
@@ -717,10 +781,12 @@ type candidates struct {
 }
 
 type pendingCand struct {
-	s     *E1State
-	class string
-	what  string
-	check func(w *World) (bool, string)
+	s         *E1State
+	class     string
+	what      string
+	check     func(w *World) (bool, string)
+	then      *Trans
+	checkStep func(w *World, before *StoreView, res *StepResult) (bool, string)
 }
 
 func newCandidates(needIdle bool) *candidates {
@@ -738,7 +804,19 @@ func (c *candidates) consider(x *Explorer, rep *Report, sc *Scenario, s *E1State
 		return
 	}
 	c.attempts[class]++
-	c.pending = append(c.pending, pendingCand{s, class, what, check})
+	c.pending = append(c.pending, pendingCand{s: s, class: class, what: what, check: check})
+}
+
+// considerStep notes a candidate that shows in a transition: tr taken from state s.
+func (c *candidates) considerStep(s *E1State, tr Trans, class, what string, checkStep func(w *World, before *StoreView, res *StepResult) (bool, string)) {
+	c.total++
+	max := 80
+	if c.attempts[class] >= max {
+		return
+	}
+	c.attempts[class]++
+	t := tr
+	c.pending = append(c.pending, pendingCand{s: s, class: class, what: what, then: &t, checkStep: checkStep})
 }
 
 // resolve runs the exact-queue confirmation for the noted candidates; only confirmed ones become violations.
@@ -747,10 +825,10 @@ func (c *candidates) resolve(x *Explorer, rep *Report, sc *Scenario) {
 		if c.confirmed[p.class] {
 			continue
 		}
-		conf := x.ConfirmExact(p.s, ConfirmOpts{NeedIdle: c.needIdle, Check: p.check})
+		conf := x.ConfirmExact(p.s, ConfirmOpts{NeedIdle: c.needIdle && p.then == nil, Check: p.check, ThenStep: p.then, CheckStep: p.checkStep})
 		c.nodes += conf.Nodes
 		if !conf.Confirmed {
-			note := fmt.Sprintf("UNCONFIRMED property=%s class=%s scenario=%q reason=%s nodes=%d abstract-trace=%v", x.RC.ID, p.class, sc.Name, conf.Reason, conf.Nodes, p.s.TraceStrings())
+			note := fmt.Sprintf("UNCONFIRMED property=%s class=%s scenario=%q reason=%s nodes=%d what=%q abstract-trace=%v", x.RC.ID, p.class, sc.Name, conf.Reason, conf.Nodes, oneLine(p.what), p.s.TraceStrings())
 			fmt.Println(note)
 			if len(c.notes) < 20 {
 				c.notes = append(c.notes, note)
